@@ -94,8 +94,11 @@ def run_case(prop_id, case_json, seed, active_known):
         ex.deadline = t0 + case.budget_s
         explore.CURRENT = ex
         hx = HX("sym", explorer=ex, seed=seed)
+        from vf.state import StateGuard
+        guard = StateGuard()
         try:
             while True:
+                guard.restore()
                 ex.start_path()
                 hx.path_covers = []
                 try:
@@ -149,6 +152,9 @@ def run_case(prop_id, case_json, seed, active_known):
     return res
 
 
+_REPLAY_GUARD = None
+
+
 def replay_one(prop_id, case_json, model, expect_label=None):
     """concrete re-execution on the real code.  -> dict(outcome=violated|passed|assume_failed|error, label, covers)"""
     from vf.api import HX, Case, ReplayViolation, ReplayAssumeFailed
@@ -157,6 +163,11 @@ def replay_one(prop_id, case_json, model, expect_label=None):
     fn = getattr(mod, case.fn)
     hx = HX("replay", model=model)
     out = dict(outcome="passed", label=None, covers=[], error=None, log=[])
+    global _REPLAY_GUARD
+    if _REPLAY_GUARD is None:
+        from vf.state import StateGuard
+        _REPLAY_GUARD = StateGuard()
+    _REPLAY_GUARD.restore()
     try:
         fn(hx, **case.params)
     except ReplayViolation as e:
